@@ -14,7 +14,7 @@
 (***************************************************************************)
 EXTENDS EngineModel, Json
 
-CONSTANTS Sim, MaxSteps, Small   \* Small: reduced catalogue for exhaustive runs
+CONSTANTS Sim, MaxSteps, Small, Tiny   \* Small / Tiny: reduced catalogues for exhaustive runs
 
 VARIABLES cur, hist, step
 vars == <<cur, hist, step>>
@@ -109,7 +109,15 @@ OpsSmall ==
     [op |-> "InsANP", anp |-> ANPB], [op |-> "InsANP", anp |-> ANPC], [op |-> "InsANP", anp |-> ANPAv], [op |-> "DelANP", name |-> "anp-a"],
     [op |-> "InsBANP", banp |-> BANPD], [op |-> "DelBANP", name |-> "default"], O("Sweep") }
 
-Ops == IF Small THEN OpsSmall ELSE OpsFull
+(* a still smaller catalogue for one more step of exhaustive depth (thorough tier): one invalidating update per kind *)
+OpsTiny ==
+  { [op |-> "InsNs", nso |-> Ns("ns1", L1("team", "y"))], [op |-> "DelNs", name |-> "ns1"],
+    [op |-> "InsPod", pod |-> PBv], [op |-> "DelPod", ns |-> "ns2", name |-> "b-x1"], [op |-> "InsPod", pod |-> PA1p], [op |-> "InsPod", pod |-> PA3],
+    [op |-> "DelNP", ns |-> "ns1", name |-> "np3"], [op |-> "InsNP", np |-> NP1v],
+    [op |-> "InsANP", anp |-> ANPB], [op |-> "DelANP", name |-> "anp-a"],
+    [op |-> "InsBANP", banp |-> BANPD], O("Sweep") }
+
+Ops == IF Tiny THEN OpsTiny ELSE IF Small THEN OpsSmall ELSE OpsFull
 
 (* the fixed prefix: a populated engine with a warm cache *)
 Prefix == << [op |-> "InsNs", nso |-> Ns("ns1", L1("team", "x"))], [op |-> "InsNs", nso |-> Ns("ns2", L1("team", "y"))],
